@@ -71,7 +71,7 @@ func (o fsOp) token() string {
 		return fmt.Sprintf("%s,%s,%d", o.K, hx(o.P), o.N)
 	case "open":
 		return fmt.Sprintf("open,%s,%d,%d", hx(o.P), o.M, o.N)
-	case "create", "readfile", "readdir", "stat", "lstat", "remove", "readlink", "readnod", "listxattrs", "sub":
+	case "create", "readfile", "readdir", "stat", "lstat", "remove", "readlink", "readnod", "listxattrs", "sub", "walk":
 		return fmt.Sprintf("%s,%s", o.K, hx(o.P))
 	case "close", "hstat":
 		return fmt.Sprintf("%s,%d", o.K, o.H)
@@ -181,6 +181,8 @@ func fsErr(err error) string {
 		return "ECLOSED"
 	case errors.Is(err, fs.ErrInvalid):
 		return "EINVAL"
+	case errors.Is(err, fs.ErrPermission):
+		return "EPERM"
 	}
 	switch {
 	case strings.Contains(msg, "is a directory"):
@@ -264,6 +266,43 @@ func (f *pkgFile) ReadAt(b []byte, off int64) (int, error) {
 		return 0, io.EOF
 	}
 	return copy(b, f.data[off:]), nil
+}
+
+// fs.WalkDir over the file system under test (what the layer writer and the recursive permissions
+// mutation do).  The watchdog is a count, not a clock: the alphabet of a case cannot make more than a
+// few hundred entries, so a walk that reaches fsWalkLimit callbacks is one that never returns (a
+// directory cycle, or an entry named ".." that leads back up); it is cut there and reported as "HANG",
+// attributed to exactly this operation of this case.
+const fsWalkLimit = 3000
+
+var errFsWalkHang = errors.New("walk does not terminate")
+
+func fsWalk(f fs.FS, root string) string {
+	var parts []string
+	n := 0
+	err := fs.WalkDir(f, root, func(p string, d fs.DirEntry, err error) error {
+		n++
+		if n > fsWalkLimit {
+			return errFsWalkHang
+		}
+		if err != nil {
+			parts = append(parts, hx(p)+"!"+fsErr(err))
+			return nil
+		}
+		if d.IsDir() {
+			parts = append(parts, hx(p)+"/")
+		} else {
+			parts = append(parts, hx(p))
+		}
+		return nil
+	})
+	if err == errFsWalkHang {
+		return "HANG"
+	}
+	if err != nil {
+		return fsErr(err)
+	}
+	return "w" + strings.Join(parts, "+")
 }
 
 type fsWorld struct {
@@ -453,6 +492,8 @@ func (w *fsWorld) apply(o fsOp) string {
 			return fsErr(err)
 		}
 		return "x" + fsKV(m)
+	case "walk":
+		return fsWalk(f, o.P)
 	case "sub":
 		s, err := f.Sub(o.P)
 		if err != nil {
@@ -589,6 +630,23 @@ var fsLinks = []string{"l", "a/l", "a/b/up", "s0", "s1", "s2", "c/k"}
 var fsVia = []string{"l/f", "l/b/g", "a/l/f", "l/up/f", "a/b/up/f", "s1/f", "s2/b", "l/g", "c/k/f", "l", "a/l", "s2"}
 var fsWeird = []string{"./a", "a/../c", "a//b", "a/", "/", ".", "", "a/.", "..", "a/..", "../a", "a/./f", "f/x", "a/f/x", "//c//f", "c/../c/f", "./f"}
 var fsTargets = []string{"a", "/a", "a/b", "../c", "b", "/c/f", "f", "l", "s0", "s1", "/s0/s0", ".", "/", "..", "../../c", "x", "../a/b", "/a/b", "b/g", "../f", "c", "/c", "../b", "up", "/l", "./f", "a/l", "k", "/d"}
+
+// names whose last element is ".", ".." or the root: filepath.Dir/Base split them into an existing
+// parent and a base that is not an entry name; no creating method may enter such a base into a directory
+var fsDots = []string{"a/..", "a/.", "a/b/..", "a/b/.", ".", "..", "/", "", "c/..", "c/.", "l/..", "l/.", "a/b/../", "./", "a/f/..", "x/.."}
+
+// new names under which a hard link to a directory closes a cycle (or makes a second parent)
+var fsCycleNames = []string{"a/x", "a/b/x", "a/b/c/x", "c/y", "a/b/.", "a/..", "x", "a/b/up2", "d/z"}
+var fsDirOlds = []string{"a", "a/b", "c", ".", "/", "l", "a/l", "d", "a/b/c", "/a"}
+
+// the name a creating operation is given: mostly from its own pool, sometimes a dotted one
+func fsNewName(r *Rng, pool []string, p string) string {
+	if r.Chance(7) {
+		return Pick(r, fsDots)
+	}
+	return Pick(r, append(append([]string{}, pool...), p))
+}
+
 var fsData = []string{"", "x", "hello", "0123456789", "abcdefghijklmnopqrstuvwxyz", "\x00\x01", "AB"}
 var fsPerms = []int{0o644, 0o755, 0o600, 0o777, 0, 0o4755, 1<<23 | 0o755, 0o1777, 0o640}
 var fsAttrs = []string{"user.a", "security.capability", "user.b"}
@@ -645,9 +703,17 @@ func genFsHdr(r *Rng) *fsHdr {
 		h.Typeflag = '1'
 		h.Name = Pick(r, fsFiles)
 		h.Linkname = Pick(r, fsFiles)
+		if r.Chance(30) {
+			// a link entry whose target is a directory
+			h.Name = Pick(r, fsCycleNames)
+			h.Linkname = Pick(r, fsDirOlds)
+		}
 	default:
 		h.Typeflag = '3'
 		h.Name = "dev"
+	}
+	if h.Typeflag != '5' && r.Chance(6) {
+		h.Name = Pick(r, fsDots)
 	}
 	return h
 }
@@ -666,15 +732,15 @@ func genFsOp(r *Rng, backend string, nh int) fsOp {
 	p := fsAnyPath(r)
 	switch k := r.Intn(1000); {
 	case k < 70:
-		return fsOp{K: "mkdir", P: Pick(r, append(append([]string{}, fsDirs...), p)), N: Pick(r, fsPerms)}
+		return fsOp{K: "mkdir", P: fsNewName(r, fsDirs, p), N: Pick(r, fsPerms)}
 	case k < 130:
 		return fsOp{K: "mkdirall", P: Pick(r, append(append([]string{}, fsDirs...), p, "l/n/m", "a/../x", "x/./y")), N: Pick(r, fsPerms)}
 	case k < 200:
-		return fsOp{K: "writefile", P: Pick(r, append(append([]string{}, fsFiles...), p)), D: Pick(r, fsData), N: Pick(r, fsPerms)}
+		return fsOp{K: "writefile", P: fsNewName(r, fsFiles, p), D: Pick(r, fsData), N: Pick(r, fsPerms)}
 	case k < 270:
-		return fsOp{K: "open", P: Pick(r, append(append([]string{}, fsFiles...), p)), M: Pick(r, fsFlags), N: Pick(r, fsPerms)}
+		return fsOp{K: "open", P: fsNewName(r, fsFiles, p), M: Pick(r, fsFlags), N: Pick(r, fsPerms)}
 	case k < 290:
-		return fsOp{K: "create", P: Pick(r, append(append([]string{}, fsFiles...), p))}
+		return fsOp{K: "create", P: fsNewName(r, fsFiles, p)}
 	case k < 350:
 		return fsOp{K: "write", H: h, D: Pick(r, fsData)}
 	case k < 390:
@@ -688,8 +754,15 @@ func genFsOp(r *Rng, backend string, nh int) fsOp {
 	case k < 505:
 		return fsOp{K: "hstat", H: h}
 	case k < 555:
-		return fsOp{K: "symlink", P: Pick(r, append(append([]string{}, fsLinks...), p)), Q: Pick(r, fsTargets)}
+		return fsOp{K: "symlink", P: fsNewName(r, fsLinks, p), Q: Pick(r, fsTargets)}
 	case k < 590:
+		if r.Chance(25) {
+			// a directory (or a link to one) as the old name
+			return fsOp{K: "link", P: Pick(r, fsCycleNames), Q: Pick(r, fsDirOlds)}
+		}
+		if r.Chance(8) {
+			return fsOp{K: "link", P: Pick(r, fsDots), Q: Pick(r, append(append([]string{}, fsFiles...), "a", "l"))}
+		}
 		if r.Chance(70) {
 			return fsOp{K: "link", P: Pick(r, []string{"h1", "a/h2", "c/h3", "a/b/h4", "f", "a/f"}), Q: Pick(r, append(append([]string{}, fsFiles...), "a", "l", "l/f"))}
 		}
@@ -716,7 +789,7 @@ func genFsOp(r *Rng, backend string, nh int) fsOp {
 	case k < 880:
 		return fsOp{K: "chtimes", P: p, O: Pick(r, []int64{0, 1, 1700000000, -5})}
 	case k < 905:
-		return fsOp{K: "mknod", P: Pick(r, []string{"dev", "a/null", "c/tty", p}), N: Pick(r, []int{0o20644, 0o20666, 0o644}), M: Pick(r, []int{259, 1281, 0, 1048575})}
+		return fsOp{K: "mknod", P: fsNewName(r, []string{"dev", "a/null", "c/tty"}, p), N: Pick(r, []int{0o20644, 0o20666, 0o644}), M: Pick(r, []int{259, 1281, 0, 1048575})}
 	case k < 920:
 		return fsOp{K: "readnod", P: Pick(r, []string{"dev", "a/null", "c/tty", p})}
 	case k < 945:
@@ -725,8 +798,10 @@ func genFsOp(r *Rng, backend string, nh int) fsOp {
 		return fsOp{K: "getxattr", P: p, Q: Pick(r, fsAttrs)}
 	case k < 970:
 		return fsOp{K: "rmxattr", P: p, Q: Pick(r, fsAttrs)}
-	case k < 985:
+	case k < 980:
 		return fsOp{K: "listxattrs", P: p}
+	case k < 988:
+		return fsOp{K: "walk", P: Pick(r, []string{".", ".", "a", "a/b", "c", "l", "/", "a/f", "nope", p})}
 	default:
 		if backend == "tarfs" {
 			return fsOp{K: "wh", Hdr: genFsHdr(r)}
@@ -792,6 +867,8 @@ func fsProbes(r *Rng, n int) []fsOp {
 		p := Pick(r, all)
 		ops = append(ops, fsOp{K: Pick(r, []string{"stat", "readfile", "readdir", "readlink", "listxattrs", "lstat"}), P: p})
 	}
+	// what the layer writer does last: walk the whole tree
+	ops = append(ops, fsOp{K: "walk", P: "."})
 	return ops
 }
 
@@ -833,14 +910,14 @@ func (fsSuite) Gen(r *Rng, i int, tier string) any {
 	}
 	c := fsCase{Backend: backend}
 	switch k := r.Intn(100); {
-	case k < 60:
+	case k < 52:
 		c.Kind = "mixed"
 		c.Ops = genFsSetup(r)
 		n := r.Range(5, 60)
 		for len(c.Ops) < n {
 			c.Ops = append(c.Ops, genFsOp(r, backend, countOpens(c.Ops)))
 		}
-	case k < 75:
+	case k < 66:
 		// one file, dense seek / write / read patterns
 		c.Kind = "rw"
 		c.Ops = append(c.Ops, fsOp{K: "open", P: "f", M: Pick(r, []int{os.O_RDWR | os.O_CREATE, os.O_RDWR | os.O_CREATE | os.O_APPEND, os.O_WRONLY | os.O_CREATE}), N: 0o644})
@@ -862,7 +939,7 @@ func (fsSuite) Gen(r *Rng, i int, tier string) any {
 				c.Ops = append(c.Ops, fsOp{K: Pick(r, []string{"readfile", "stat"}), P: "f"})
 			}
 		}
-	case k < 88:
+	case k < 78:
 		// link chains up to and beyond the limit: linear (depth = count) and doubling (count = 2^depth)
 		c.Kind = "chain"
 		c.Ops = append(c.Ops, fsOp{K: "mkdirall", P: "a/b", N: 0o755}, fsOp{K: "writefile", P: "a/f", D: "hello", N: 0o644})
@@ -901,6 +978,45 @@ func (fsSuite) Gen(r *Rng, i int, tier string) any {
 					{K: "mkdirall", P: top + "/n", N: 0o755}, {K: "writefile", P: top + "/w", D: "x", N: 0o644}}))
 			}
 		}
+	case k < 88:
+		// hard links to directories (through Link, through link entries of a package) and dotted
+		// final components under every creating operation, each followed by what a walk then sees
+		c.Kind = "cycle"
+		c.Ops = append(c.Ops, fsOp{K: "mkdirall", P: "a/b/c", N: 0o755}, fsOp{K: "mkdir", P: "c", N: 0o755},
+			fsOp{K: "writefile", P: "a/f", D: "hello", N: 0o644})
+		if r.Chance(40) {
+			c.Ops = append(c.Ops, fsOp{K: "symlink", P: "l", Q: Pick(r, []string{"a", "/a", "a/b", "c"})})
+		}
+		n := r.Range(6, 16)
+		for len(c.Ops) < n {
+			switch j := r.Intn(100); {
+			case j < 30:
+				c.Ops = append(c.Ops, fsOp{K: "link", P: Pick(r, fsCycleNames), Q: Pick(r, fsDirOlds)})
+			case j < 40 && backend == "tarfs":
+				c.Ops = append(c.Ops, fsOp{K: "wh", Hdr: &fsHdr{Typeflag: '1', Name: Pick(r, fsCycleNames), Linkname: Pick(r, fsDirOlds), Mode: 0o755, Sum: "-", Pkg: "pa", Origin: "oa"}})
+			case j < 48:
+				c.Ops = append(c.Ops, fsOp{K: "symlink", P: Pick(r, fsDots), Q: Pick(r, fsTargets)})
+			case j < 56:
+				c.Ops = append(c.Ops, Pick(r, []fsOp{{K: "writefile", P: Pick(r, fsDots), D: "x", N: 0o644}, {K: "create", P: Pick(r, fsDots)},
+					{K: "open", P: Pick(r, fsDots), M: os.O_RDWR | os.O_CREATE, N: 0o644}, {K: "open", P: Pick(r, fsDots), M: os.O_RDONLY, N: 0o644}}))
+			case j < 62:
+				c.Ops = append(c.Ops, fsOp{K: "mknod", P: Pick(r, fsDots), N: 0o20666, M: 259})
+			case j < 68:
+				c.Ops = append(c.Ops, fsOp{K: "link", P: Pick(r, fsDots), Q: Pick(r, []string{"a/f", "a", "c"})})
+			case j < 74 && backend == "tarfs":
+				h := &fsHdr{Typeflag: Pick(r, []int{'0', '2', '1'}), Name: Pick(r, fsDots), Linkname: Pick(r, []string{"a/f", "a", "x"}), Mode: 0o644, Sum: hx("sum-one-sum-one-sum-1"), Content: "x", Size: 1, Pkg: "pa", Origin: "oa"}
+				c.Ops = append(c.Ops, fsOp{K: "wh", Hdr: h})
+			case j < 80:
+				c.Ops = append(c.Ops, fsOp{K: "remove", P: Pick(r, append(append([]string{}, fsCycleNames...), "a", "a/b", "c"))})
+			case j < 90:
+				c.Ops = append(c.Ops, fsOp{K: "walk", P: Pick(r, []string{".", "a", "a/b", "c"})})
+			default:
+				c.Ops = append(c.Ops, fsOp{K: Pick(r, []string{"readdir", "stat"}), P: Pick(r, append(append([]string{}, fsCycleNames...), fsDots...))})
+			}
+		}
+		for _, d := range []string{"a", "a/b", "."} {
+			c.Ops = append(c.Ops, fsOp{K: "readdir", P: d})
+		}
 	default:
 		// SubFS view
 		c.Kind = "sub"
@@ -911,6 +1027,16 @@ func (fsSuite) Gen(r *Rng, i int, tier string) any {
 		for len(c.Ops) < n {
 			if r.Chance(4) {
 				c.Ops = append(c.Ops, fsOp{K: "sub", P: Pick(r, []string{"b", "/b", ".", "b/", "../c", "f", "x"})})
+				continue
+			}
+			if r.Chance(12) {
+				// what was linked through the view is read back through the view
+				nm := Pick(r, []string{"sl", "b/sl", "hl", "b/hl", "f2"})
+				if r.Bool() {
+					c.Ops = append(c.Ops, fsOp{K: "symlink", P: nm, Q: Pick(r, []string{"f", "b", "/a/f", "../c"})}, fsOp{K: "readlink", P: nm})
+				} else {
+					c.Ops = append(c.Ops, fsOp{K: "writefile", P: "f", D: "sub-f", N: 0o644}, fsOp{K: "link", P: nm, Q: Pick(r, []string{"f", "b/g", "a/f"})}, fsOp{K: "readfile", P: nm})
+				}
 				continue
 			}
 			c.Ops = append(c.Ops, genFsOp(r, backend, countOpens(c.Ops)))
